@@ -454,18 +454,29 @@ def run_shard(ctx):
                     own = gen.small_content(rng) + b"user-own"
                     with open(os.path.join(codir, "sub", "b"), "wb") as f:
                         f.write(own)
-                    bp_ = odb.oid_to_path(H("md5", b_))
-                    os.chmod(bp_, 0o644)
-                    os.unlink(bp_)
+                    olk_ = rng.choice([None, None, "copy", "hardlink", "symlink"])
+                    codb = odb if olk_ is None else env.local_odb(os.path.join(d, "cache"), state=state, type=[olk_])
+                    if olk_ in (None, "copy") or rng.random() < 0.6:
+                        bp_ = odb.oid_to_path(H("md5", b_))
+                        os.chmod(bp_, 0o644)
+                        os.unlink(bp_)
                     try:
-                        _checkout(codir, fs, tobj, odb, force=True, state=state, old=scan)
+                        _checkout(codir, fs, tobj, codb, force=True, state=state, old=scan)
                     except CheckoutError:
                         res.count("failed_link_checkouts_raised")
                     for rel in (("a",), ("sub", "b")):
                         pp = os.path.join(codir, *rel)
-                        if os.path.isfile(pp):
+                        if os.path.isfile(pp) and not os.path.islink(pp):
                             _m1, h1 = hash_file(pp, fs, "md5", state=state)
-                            verify(pp, "md5", h1.value, "hash_file/after-checkout-with-failed-link")
+                            if olk_ in ("hardlink", "symlink"):
+                                # link types keep an existing destination without saying so
+                                res.count("answers_checked")
+                                if h1.value != H("md5", file_bytes(pp)):
+                                    res.violation("stale-hash/checkout-recorded-a-kept-existing-file/object-checkout",
+                                                  f"object checkout with link type {olk_} silently kept a file that had appeared at the path of an added entry and "
+                                                  "recorded it in the hash state under the target's hash", case=case, detail={"history": hist[-6:], "link": olk_})
+                            else:
+                                verify(pp, "md5", h1.value, "hash_file/after-checkout-with-failed-link")
                 elif q == "index-checkout-failed-create":
                     # the same through the index-level checkout: compare, then a file of the user's appears at a path that is to be
                     # created and the entry's object is gone from the cache; apply reports the entry - and must record nothing for it
@@ -485,11 +496,13 @@ def run_shard(ctx):
                     os.makedirs(os.path.join(codir, "sub"), exist_ok=True)
                     with open(os.path.join(codir, "sub", "b"), "wb") as f:
                         f.write(own)
-                    bp_ = odb.oid_to_path(H("md5", b_))
-                    os.chmod(bp_, 0o644)
-                    os.unlink(bp_)
+                    lk_ = rng.choice([None, ["copy"], ["hardlink"], ["hardlink"], ["symlink"]])
+                    kept_obj = lk_ == ["hardlink"] and rng.random() < 0.5
+                    if not kept_obj:
+                        bp_ = odb.oid_to_path(H("md5", b_))
+                        os.chmod(bp_, 0o644)
+                        os.unlink(bp_)
                     errs_ = []
-                    lk_ = rng.choice([None, ["copy"], ["hardlink"], ["symlink"]])
                     try:
                         _iapply(dff, codir, fs, storage="cache", state=state, update_meta=False, onerror=lambda s_, d_, e_: errs_.append(d_),
                                 links=lk_)
@@ -501,12 +514,12 @@ def run_shard(ctx):
                         pp = os.path.join(codir, *rel)
                         if os.path.isfile(pp) and not os.path.islink(pp):
                             _m1, h1 = hash_file(pp, fs, "md5", state=state)
-                            if lk_ == ["symlink"]:
+                            if lk_ == ["symlink"] or kept_obj:
                                 # the link primitive keeps an existing destination without saying so (nothing reaches onerror)
                                 res.count("answers_checked")
                                 if h1.value != H("md5", file_bytes(pp)):
-                                    res.violation("stale-hash/checkout-recorded-a-kept-existing-file/symlink",
-                                                  "index checkout with link type symlink silently kept a file that had appeared at a path to be created and recorded it "
+                                    res.violation("stale-hash/checkout-recorded-a-kept-existing-file/index-checkout",
+                                                  f"index checkout with link type {lk_[0]} silently kept a file that had appeared at a path to be created and recorded it "
                                                   "in the hash state under the target's hash", case=case, detail={"history": hist[-6:]})
                             else:
                                 verify(pp, "md5", h1.value, "hash_file/after-index-checkout-with-failed-create")
